@@ -38,6 +38,9 @@ type hEnv struct {
 	afterCall func()
 	// reopen closes the engine and opens a new one on the same store (file
 	// backed environments only).
+	// ctx, when set, replaces context.Background() for the calls (session
+	// contexts, deadlines).
+	ctx    context.Context
 	reopen func() error
 	// age closes the engine, rewrites the stored change log so that every
 	// event is two hours older, and reopens with tight retention options, so
@@ -244,6 +247,9 @@ func (h *hEnv) execStep(step bson.D) (res bson.D, perr error) {
 		}
 	}()
 	ctx := context.Background()
+	if h.ctx != nil {
+		ctx = h.ctx
+	}
 	op := asS(getD(step, "op"))
 	ns := asS(getD(step, "ns"))
 	rec := &callRecord{}
